@@ -168,7 +168,9 @@ class Check:
         for name, files in sets.items():
             for inc in (False, True):
                 for ns in (False, True):
-                    for outf in (None, 'out.xml'):
+                    # -o may also name one of the input files (all inputs are read before the output is written)
+                    aliases = [f for f in ('5.mos.xml', '1.mos.xml') if files.get(f)] if name in ('valid', 'incomplete', 'failing') else []
+                    for outf in [None, 'out.xml'] + aliases:
                         argv = ['merge', '-f'] + ['@' + f for f in sorted(files, reverse=True)]
                         if inc:
                             argv.append('--incomplete')
